@@ -44,7 +44,8 @@ NAME_POOLS = {
 class Cfg:
     def __init__(self, naming="distinct", method_form=0.3, members=None, called_lambdas=True, odd_selectors=False,
                  containers=True, ifexp=True, keywords_in_called=True, first=True, lists=True, dict_attr=True,
-                 comprehension=False, count_fn=True, first_on_seq=True, genexp=False):
+                 comprehension=False, count_fn=True, first_on_seq=True, genexp=False,
+                 captures=False, helpers=False, record_ctor=False):
         self.naming = naming
         self.method_form = method_form
         self.members = members or MEMBERS
@@ -60,6 +61,9 @@ class Cfg:
         self.count_fn = count_fn
         self.first_on_seq = first_on_seq
         self.genexp = genexp
+        self.captures = captures
+        self.helpers = helpers
+        self.record_ctor = record_ctor
 
 
 class Ctx:
@@ -93,6 +97,8 @@ def bind(env, name, ty):
 
 
 def _const(cx: Ctx, ty):
+    if cx.cfg.captures and ty in (I, F) and cx.chance(3):
+        return "K1" if ty == I else "K2"  # module-level constants of the generated program (captured by value)
     if ty == I:
         return str(cx.int_(0, 5))
     if ty == F:
@@ -132,6 +138,9 @@ def paths(cx: Ctx, env, maxdepth=3):
                 go(f"{expr}['{key}']", t, d - 1)
                 if cx.cfg.dict_attr:
                     go(f"{expr}.{key}", t, d - 1)
+        elif k == "D":
+            for key, t in ty[1]:
+                go(f"{expr}.{key}", t, d - 1)
 
     for name, ty in env:
         go(name, ty, maxdepth)
@@ -174,7 +183,22 @@ def gen(cx: Ctx, env, ty, depth) -> str:
         if p:
             return p
         return "{" + ", ".join(f"'{key}': {gen(cx, env, t, depth - 1)}" for key, t in ty[1]) + "}"
+    if k == "D":  # record built with a dataclass / NamedTuple constructor (sugar), read by attribute
+        p = pick_path(cx, env, ty) if cx.chance(2) else None
+        if p:
+            return p
+        n = len(ty[1])
+        cls = cx.pick([f"R{n}", f"N{n}"])
+        npos = cx.int_(0, n)
+        items = [gen(cx, env, t, depth - 1) for _, t in ty[1]]
+        kws = [f"{key}={it}" for (key, _), it in list(zip(ty[1], items))[npos:]]
+        kws = list(cx.draw(st.permutations(kws)))
+        return f"{cls}({', '.join(items[:npos] + kws)})"
     raise ValueError(ty)
+
+
+def _first(cx: Ctx, s: str) -> str:
+    return f"{_recv(s)}.First()" if cx.chance(int(cx.cfg.method_form * 10)) else f"First({s})"
 
 
 def _wrappers(cx: Ctx, env, ty, depth, inner_fn):
@@ -198,8 +222,7 @@ def _wrappers(cx: Ctx, env, ty, depth, inner_fn):
     if c == 2 and cfg.ifexp and ty[0] in ("I", "F", "B", "O"):
         return f"({inner_fn()} if {gen(cx, env, B, depth - 1)} else {gen(cx, env, ty, depth - 1)})"
     if c == 3 and cfg.first and (cfg.first_on_seq or ty[0] != "S"):
-        s = _seq(cx, env, ty, depth - 1)
-        return f"First({s})" if not cx.chance(int(cfg.method_form * 10)) else f"{_recv(s)}.First()"
+        return _first(cx, _seq(cx, env, ty, depth - 1))
     if c in (4, 7, 8) and cfg.odd_selectors:
         return _odd(cx, env, ty, depth)
     if c in (5, 6) and cfg.first and depth >= 1 and (cfg.first_on_seq or ty[0] != "S"):
@@ -221,8 +244,7 @@ def _wrappers(cx: Ctx, env, ty, depth, inner_fn):
         else:
             xt = ("R", (("f_a", any_type(cx, env, 1)), ("f_b", ty)))
             proj = ".f_b" if (cfg.dict_attr and cx.chance(5)) else "['f_b']"
-        s = _seq(cx, env, xt, depth - 1)
-        return f"First({s}){proj}"
+        return f"{_first(cx, _seq(cx, env, xt, depth - 1))}{proj}"
     return inner_fn()
 
 
@@ -260,6 +282,11 @@ def _scalar(cx: Ctx, env, ty, depth):
             return f"Count({s})" if (cx.chance(7) or not cx.cfg.count_fn) else f"len({s})"
         if c == 6:
             return f"(-{gen(cx, env, ty, depth - 1)})"
+        if c == 7 and cx.cfg.helpers and cx.chance(6):
+            if cx.chance(5):
+                return f"hscale({gen(cx, env, ty, depth - 1)})"
+            a, b = gen(cx, env, ty, depth - 1), gen(cx, env, ty, depth - 1)
+            return cx.pick([f"hadd({a}, {b})", f"hadd(b={b}, a={a})", f"hadd({a})", f"hsecond({a}, {b})"])
         if c == 7:
             return f"abs({gen(cx, env, ty, depth - 1)})"
         p = pick_path(cx, env, ty)
@@ -275,10 +302,10 @@ def _obj(cx: Ctx, env, ty, depth):
             return p
         # always reachable from the root dataset
         if ty == EVT:
-            return "First(ds)"
+            return _first(cx, "ds")
         if ty == JET:
-            return f"First({_obj(cx, env, EVT, depth - 1)}{_fill(cx, cx.pick([m for m, t in cx.cfg.members['Evt'] if t == S(JET)]))})"
-        return f"First({_obj(cx, env, JET, depth - 1)}{_fill(cx, cx.pick([m for m, t in cx.cfg.members['Jet'] if t == S(TRK)]))})"
+            return _first(cx, f"{_obj(cx, env, EVT, depth - 1)}{_fill(cx, cx.pick([m for m, t in cx.cfg.members['Evt'] if t == S(JET)]))}")
+        return _first(cx, f"{_obj(cx, env, JET, depth - 1)}{_fill(cx, cx.pick([m for m, t in cx.cfg.members['Jet'] if t == S(TRK)]))}")
 
     return _wrappers(cx, env, ty, depth, base) if depth > 0 else base()
 
@@ -300,7 +327,8 @@ def any_type(cx: Ctx, env, depth):
         return (cx.pick(["T", "T", "L"]) if cx.cfg.lists else "T", tuple(any_type(cx, env, depth - 1) for _ in range(n)))
     if c == 7 and cx.cfg.containers:
         n = cx.int_(1, 3)
-        return ("R", tuple((f"f_{chr(97 + i)}", any_type(cx, env, depth - 1)) for i in range(n)))
+        kind = "D" if (cx.cfg.record_ctor and cx.chance(6)) else "R"
+        return (kind, tuple((f"f_{chr(97 + i)}", any_type(cx, env, depth - 1)) for i in range(n)))
     if c == 8:
         sp = [t for _, t in seq_paths(cx, env)]
         return cx.pick(sp) if sp else I
